@@ -390,11 +390,14 @@ Section C10.
     apply orb_false_iff in F. destruct F as [_ PD].
     match type of H with (if ?c && _ then _ else _) = _ => idtac end.
     set (s3 := if pos_le (d_pos s') (d_pos (x_parser_bs s2)) || (c_scan_job_checks_head cfg && (d_off s' <? x_head_offs s2)) then give_unit s2
+               else if c_scan_checks_unord_cap cfg && unord_full s2 then give_unit s2
                else set_retr_q (mkrjob (d_pos s') s' (Some (x_next_uid s2)) :: x_retr_q s2)
                      (set_next_uid (x_next_uid s2 + 1)
                         (set_unords (x_unords s2 ++ [mkunord (x_next_uid s2) (d_pos s') s' false false true]) s2))) in *.
     assert (I3 : cinv s3).
-    { subst s3. destruct (pos_le (d_pos s') (d_pos (x_parser_bs s2)) || (c_scan_job_checks_head cfg && (d_off s' <? x_head_offs s2))).
+    { subst s3. destruct (pos_le (d_pos s') (d_pos (x_parser_bs s2)) || (c_scan_job_checks_head cfg && (d_off s' <? x_head_offs s2)));
+        [|destruct (c_scan_checks_unord_cap cfg && unord_full s2)].
+      - eapply cinv_cview; [|eauto]. unfold give_unit. cview_tac.
       - eapply cinv_cview; [|eauto]. unfold give_unit. cview_tac.
       - destruct I2 as [Cs Cm Cu Cn Ce Cc Cr]. destruct IV2 as [Ic Ip Ir Is Iu If Ij Il Ie Im Id Ib Iq].
         constructor; unfold all_jobs in *; xs; auto.
